@@ -356,8 +356,13 @@ def _validators():
 
 def verdict(prog, kind, full=False):
     key = (id(prog), kind, full)
-    if key in _V:
-        return _V[key]
+    if key not in _V:
+        from ..vcache import cached
+        _V[key] = cached("graph-history/%s/%s" % (kind, full), prog, [MOD, "cnfgen.localtypes"], lambda: _verdict(prog, kind, full))
+    return _V[key]
+
+
+def _verdict(prog, kind, full=False):
     try:
         world = World(prog, MOD, _validators(), fuel=FUEL)
         n = 0
@@ -375,5 +380,4 @@ def verdict(prog, kind, full=False):
         out = (None, "recursion while folding %s" % kind)
     except Exception as e:           # a fault of the evaluator on unusual code: undecided, never a finding
         out = (None, "cannot fold %s: %s: %s" % (kind, type(e).__name__, e))
-    _V[key] = out
     return out
